@@ -282,12 +282,15 @@ package mqtt
 //@   ensures[C04,C05] topic: result1 == nil && validUTF8(string(contents[2:2+(int(contents[0])*256+int(contents[1]))])) ==> p.Message.Topic == string(contents[2:2+(int(contents[0])*256+int(contents[1]))])
 //@   ensures[C04,C05] id: result1 == nil && p.Message.QoS != QoS0 ==> 4+(int(contents[0])*256+int(contents[1])) <= len(contents) && p.Message.ID == uint16(contents[2+(int(contents[0])*256+int(contents[1]))])<<8|uint16(contents[3+(int(contents[0])*256+int(contents[1]))])
 //@   ensures[C04,C05] id0: result1 == nil && p.Message.QoS == QoS0 ==> p.Message.ID == 0
+//@   note where the payload lives: in the packet body it was parsed from, or in storage of its own (the reader relies on this to keep a message intact until it is handed over)
+//@   ensures[C04,C20] payload_storage: result1 == nil ==> len(p.Message.Payload) == 0 || sameArray(p.Message.Payload, contents) || fresh(p.Message.Payload)
 //@   ensures[C04,C05] payload: result1 == nil ==> seqEq(seqOf(p.Message.Payload), sub(seqOf(contents), 2+(int(contents[0])*256+int(contents[1]))+ite(p.Message.QoS != QoS0, 2, 0), len(contents)))
 
 //@ func readPacket
 //@   mode bv
 //@   props C06
 //@   pure
+//@   freshresult
 //@   loop 1 unroll 6
 //@   ensures[C06] result3 == nil ==> len(result2) <= 268435455
 //@   ensures[C06] alloc: maxAlloc() <= 268435455
